@@ -331,6 +331,49 @@ def corpus_separation_invariant(tier_name):
     }]
 
 
+def whole_sast_transformers(tier_name):
+    """E3 cells: complete real SAST transformers with a symbolic finding location (see harness/c06w.py)."""
+    import os
+
+    from harness import c06w
+    from vlib.core import ROOT, known_active
+
+    KEY = "C06/finding-on-enclosing-statement-dispatched-to-call-handler"
+    recs = []
+    for entry in c06w.FAMILY:
+        cid = entry[0]
+        rec = {"name": "whole:" + cid, "engine": "E3-cells+z3"}
+        try:
+            done, atoms, runs, queries, fixpoint, sites = c06w.explore(entry)
+        except c06w.symint.Leak as e:
+            rec.update(verdict="inconclusive", detail="the transformer uses the location other than by comparison: %s" % e, evaluations=0, distinct_nontrivial=0)
+            recs.append(rec)
+            continue
+        bad = {k: v for k, v in done.items() if v}
+        known = {k: v for k, v in bad.items() if v.startswith("KNOWN:") and known_active(KEY)}
+        viol = {k: v for k, v in bad.items() if k not in known}
+        rec.update(evaluations=runs, distinct_nontrivial=len(done), z3_checks=queries,
+                   sample={"sites": sites, "cells": len(done), "comparisons_made_by_the_code": len(atoms), "fixpoint": fixpoint, "cells_matching_the_known_finding": len(known)})
+        if viol:
+            k = sorted(viol)[0]
+            d = os.path.join(ROOT, "replays", "C06")
+            os.makedirs(d, exist_ok=True)
+            path = os.path.join(d, "whole_%s.py" % cid.replace(":", "_").replace("/", "_"))
+            with open(path, "w") as f:
+                f.write("import sys\nsys.path.insert(0, %r)\nfrom harness import c06w\nfrom vlib import symint\nentry = [e for e in c06w.FAMILY if e[0] == %r][0]\n"
+                        "done, *_ = c06w.explore(entry)\nbad = {k: v for k, v in done.items() if v and not v.startswith('KNOWN:')}\nprint(sorted(bad.values())[:3])\nsys.exit(1 if bad else 0)\n" % (ROOT, cid))
+            rec.update(verdict="violation", replay=path, detail="%s: %s" % (cid, viol[k]))
+        elif not fixpoint:
+            rec.update(verdict="inconclusive", detail="cell refinement did not reach a fixpoint")
+        else:
+            rec["verdict"] = "discharged"
+        recs.append(rec)
+        if known:
+            recs.append({"name": "known:%s:%s" % (KEY, cid), "engine": "E3-cells+z3", "verdict": "known", "evaluations": len(known), "distinct_nontrivial": len(known),
+                         "detail": "%s :: %s: %d cells, e.g. %s" % (KEY, cid, len(known), sorted(known.values())[0][6:])})
+    return recs
+
+
 def warmup():
     generic_sound_complete((1, 0, 1, 4), (1, 1, 1, 5))
     generic_separation((1, 0, 1, 4), (1, 2, 1, 4))
@@ -366,6 +409,7 @@ SPEC = {
         "FileContext.get_findings_for_location / get_all_findings",
         "BaseCodemod._process_file, ResultSet.results_for_rule_and_file",
         "LibcstResultTransformer.report_change / report_change_for_line / lineno_for_node",
+        "whole-transformer family: the complete real transformers of sonar:python/secure-random, semgrep:python/harden-pyyaml, defectdojo:python/avoid-insecure-deserialization with a symbolic finding location (native runs, one per z3-enumerated cell)",
     ],
     "bounds": {
         "quick": "node and finding ranges: 4 unbounded symbolic ints each; two candidate nodes x reported subset; <= 3 findings with symbolic line ranges; <= 2 own findings + foreign-rule and foreign-file decoys",
@@ -377,8 +421,8 @@ SPEC = {
         "closed / resolved / reviewed Sonar entries are dropped by the reader: decided under C12 (sonar_reader)",
     ],
     "stubs": ["node_position", "transformer pipeline (records what it is handed)", "file (FakePath)", "logger"],
-    "outside": ["'k of n sites rewritten' end to end through whole transformers", "SARIF/JSON decoding (C12)", "per-codemod transformers that bypass node_is_selected", "two reported sites on the same physical line: change entries are attached per line (see known findings)"],
-    "drivers": [corpus_separation_invariant],
+    "outside": ["'k of n sites rewritten' for SAST codemods other than the three in the whole-transformer family, and for more than one symbolic finding", "SARIF/JSON decoding (C12)", "per-codemod transformers that bypass node_is_selected", "two reported sites on the same physical line: change entries are attached per line (see known findings)"],
+    "drivers": [corpus_separation_invariant, whole_sast_transformers],
     "xh": [
         Xh("generic_sound_complete", 120, 300),
         Xh("generic_separation", 120, 300),
